@@ -243,6 +243,13 @@ MOTIFS = {
 }
 
 
+# a flaky node inside a recurrent subgraph: it fails its first attempt in every iteration and succeeds on the second
+MOTIFS['M28_flaky_node_inside_recurrent_subgraph'] = spec([
+    node(0), node(1, has_additional=True),
+    node(2, [('a', inp(1))], attempts=3, delay=1, fails=[[0, 1, 'E1'], [1, 1, 'E1'], [2, 1, 'E1']]),
+    node(3, [('a', inp(2))], is_rec=True, recur_k=2), node(4, [('a', rec(1, 3, 3))])])
+
+
 def _with_cb(sp, cb):
     sp = dict(sp)
     sp['cb'] = cb
